@@ -29,15 +29,15 @@ claim("C01",
       "languages are outside this check's bound (DESIGN.md section 4 C01).",
       "DESIGN.md section 4 C01")
 claim("C03",
-      "Bounded model checking of the real TransactionManager (begin/record_write/commit/abort/gc/state) on 8 concrete history skeletons of up to 8 steps and 3 transactions, with the "
+      "Bounded model checking of the real TransactionManager (begin/record_write/commit/abort/gc/state) on 12 concrete history skeletons of up to 8 steps and 3 transactions (the thorough tier adds all 30 interleaving variants of two writer scripts), with the "
       "entities (all 64 id bits) and isolation levels symbolic, against a declarative first-committer-wins specification: a commit is refused iff another transaction committed after "
       "it began and wrote a common entity; never because of a writer that committed before it began; gc at any of the explored points changes no verdict; refused commits change "
-      "nothing; commit epochs strictly increase; aborted writers block nobody; node and edge with equal ids never conflict.",
+      "nothing, so a retry is refused again; commit epochs strictly increase; aborted writers block nobody; node and edge with equal ids never conflict; writers that begin at different epochs; gc while a later, non-overlapping writer is active.",
       "Skeleton shapes are enumerated by hand (listed in the evidence), not all histories; 2 entities, <= 3 transactions, map stand-in capacity 4; commits from several threads are "
       "outside (Kani has no threads; commit holds the table lock for its whole body).",
       "DESIGN.md section 4 C03")
 claim("C04",
-      "Bounded model checking of the real TransactionManager's SSI validation on 6 concrete skeletons (write skew, mixed levels, read-only, non-overlapping, rw-antidependency, with gc), "
+      "Bounded model checking of the real TransactionManager's SSI validation on 9 concrete skeletons (write skew, mixed levels, read-only, non-overlapping, rw-antidependency, gc between the commits, staggered start epochs, a node and an edge with the same id), "
       "entities and isolation levels symbolic, against the specification: SerializationFailure iff Serializable, has writes, not write-conflicted, and read an entity written by a "
       "transaction that committed after it began. One open known finding (read-only Serializable transaction refused) is carved out and pinned by a witness harness.",
       "Hand-enumerated skeleton shapes; <= 3 transactions, <= 3 entities; the global acyclicity argument (per-step rule => serial order) is not machine-checked here.",
@@ -58,7 +58,7 @@ claim("C02",
       "Bounded model checking of rollback at two levels. Kernel: VersionChain::remove_versions_by on a chain of a committed base version and two versions of the rolled-back "
       "transaction (all epochs, creators, viewer symbolic): afterwards none of the transaction's versions is visible to anyone and every viewer sees exactly the pre-transaction "
       "state. Composition: the real TransactionManager and LpgStore composed as session.rs composes them (begin, create_node at the transaction's start epoch, rollback = "
-      "discard_uncommitted_versions + abort; the writer's start epoch symbolic): the created node is invisible afterwards to readers outside and inside a transaction. One open known "
+      "discard_uncommitted_versions + abort; the writer's start epoch symbolic): one node, and two nodes, created in the transaction are invisible afterwards to readers outside and inside a transaction. One open known "
       "finding (rollback leaves a property written in the transaction) is pinned by a witness harness.",
       "Session itself is not encoded (its Arc<LpgStore> makes the store a heap object: no verdict); commit publication is an optional thorough harness (no verdict within 15 min under "
       "load); edges, deletes, labels, failed commits, dropped sessions, MERGE and query-issued mutations are outside the bound.",
@@ -112,7 +112,7 @@ claim("C18",
       "DESIGN.md 9.4 C18")
 claim("C19",
       "Bounded model checking of the UnionFind kernel that components and Kruskal are built on: after any 3 unions on 4 elements connected() equals the reflexive-symmetric-transitive "
-      "closure, union() reports a merge exactly when the sets differed, find() is idempotent; class counts and the equivalence laws on 3 elements.",
+      "closure, union() reports a merge exactly when the sets differed, find() is idempotent; class counts and the equivalence laws on 3 elements; 6 elements with a rank-2 tree and two symbolic unions (the lower-rank-under-higher-rank branch with non-root arguments).",
       "UnionFind kernel only; algorithms over the real store (shortest paths, components, MST, traversals, flow, centrality) are outside (store-based harnesses exceed the budget, DESIGN.md 9.2).",
       "DESIGN.md 9.4 C19")
 claim("C20",
